@@ -1947,11 +1947,23 @@ class StateEngine(object):
                 If task_terminated just tidy up self.branch_metadata for current
                 execution_arn otherwise end the execution.
                 """
-                if task_terminated:
-                    if execution_arn in self.branch_metadata:
+                if task_terminated and execution_arn in self.branch_metadata:
+                    """
+                    A cancelled Task or Wait in a branch has failed a top level
+                    Map or Parallel state. If the execution has already ended
+                    (the cancellation was part of winding it up) there is only
+                    tidying up to do. Otherwise the cancellation came from
+                    outside - the Task of a parent execution that launched
+                    this one has timed out or been terminated - and this
+                    execution ends here, like one whose top level Task or Wait
+                    is cancelled.
+                    """
+                    execution_detail = self.executions.get(execution_arn)
+                    if (execution_detail != None and
+                        execution_detail.get("status") != "RUNNING"):
                         self.check_pending_results(execution_arn)
                     else:
-                        self.end_execution(state_machine, state_type, event)           
+                        self.end_execution(state_machine, state_type, event)
                 else:
                     self.end_execution(state_machine, state_type, event)
 
